@@ -227,6 +227,16 @@ def replay(rep):
         pf1, pf3, T = r.get("pf1"), r["pf3"], r["threshold"]
         bad = over or (pf1 is not None and ((pf3 < T - 0.1 and (share > 0.1 or pf3 < pf1 - 0.01)) or (pf1 >= T and pf3 < T - 0.01)))
         return 1 if bad else 0
+    if rep.get("rerun_dispatch"):
+        rd = rep["rerun_dispatch"]
+        res = ctx.run_impl("c03_impl", {"demand_cases": [], "runs": [{"iso3": rd["iso3"], "option": rd["option"], "preset": rd.get("preset")}], "procs": 1})
+        r = res["runs"][0]
+        ov = rd["option"].get("MINIMUM_PERCENT_FED_BEFORE_NONHUMAN_CONSUMPTION_ALLOWED")
+        print({k: r.get(k) for k in ("threshold", "feed_months", "biofuel_months", "effective_shutoff", "error")}, "override asked for:", ov)
+        if "error" in r:
+            return 1
+        changed = (r["threshold"], r["feed_months"], r["biofuel_months"]) != (rd["threshold_used"], rd["feed_months"], rd["biofuel_months"])
+        return 1 if (not changed or (ov is not None and abs(r["threshold"] - float(ov)) > 1e-9)) else 0
     if "case" in rep:
         res = ctx.run_impl("c03_impl", {"demand_cases": [rep["case"]], "runs": []})
         print(res["demand"][0])
